@@ -63,6 +63,15 @@ theorem translated_dec2bin_eq (x len : Nat) (h : x ≤ 2 ^ len) :
     rw [binDigits_eq_bits]
     rfl
 
+/-- END-TO-END ON THE CODE AS IT IS NOW: `bin2dec(dec2bin(x, length)) == x` for every `x ≤ 2**length`, and `dec2bin` returns at
+    least `length` digits – the index arithmetic `f(j)` / `decode` of `get_pauliop_from_matrix` rests on exactly this. -/
+theorem translated_bin2dec_dec2bin (x len : Nat) (h : x ≤ 2 ^ len) :
+    ∃ l : List Nat, Translated.dec2bin (x : Int) (len : Int) = some (l.map Int.ofNat) ∧
+      len ≤ l.length ∧ Translated.bin2dec (l.map Int.ofNat) = (x : Int) := by
+  refine ⟨OQ.C09.dec2bin x len, translated_dec2bin_eq x len h, ?_, ?_⟩
+  · rw [dec2bin_eq_bits, OQ.C04.bits_length]; exact le_max_left _ _
+  · rw [translated_bin2dec_eq, bin2dec_dec2bin]
+
 /-! non-vacuity -/
 example : Translated.dec2bin 6 4 = some [0, 1, 1, 0] := by decide
 example : Translated.dec2bin 17 4 = none := by decide
